@@ -473,9 +473,13 @@ __CPROVER_ensures(RQ_COMMON_POST(connp))
 htp_status_t contract_htp_connp_REQ_CONNECT_WAIT_RESPONSE(htp_connp_t *connp)
 __CPROVER_requires(RQ_PRE(connp, htp_connp_REQ_CONNECT_WAIT_RESPONSE))
 __CPROVER_assigns(connp->in_state)
-/* until the response line has been seen the request side stays suspended and nothing at all changes */
-__CPROVER_ensures(connp->in_tx->response_progress <= HTP_RESPONSE_LINE ==> (__CPROVER_return_value == HTP_DATA_OTHER && connp->in_state == O(connp->in_state)))
-__CPROVER_ensures(connp->in_tx->response_progress > HTP_RESPONSE_LINE ==> (__CPROVER_return_value == HTP_OK &&
+/* C16 "consumes nothing beyond that request until the response has been seen": until the status line of a FINAL response has been seen the
+ * request side stays suspended and nothing at all changes.  An interim "100 Continue" is not the answer (the response side restarts at
+ * RES_LINE after it and resets the progress to LINE): while its header block is still incomplete (progress HEADERS, status 100) the
+ * request side must keep waiting, whatever the chunking of the response stream - finding c16_connect_interim_100, fixed. */
+#define CONNECT_ANSWER_SEEN(c) ((c)->in_tx->response_progress > HTP_RESPONSE_LINE && (c)->in_tx->response_status_number != 100)
+__CPROVER_ensures(!CONNECT_ANSWER_SEEN(connp) ==> (__CPROVER_return_value == HTP_DATA_OTHER && connp->in_state == O(connp->in_state)))
+__CPROVER_ensures(CONNECT_ANSWER_SEEN(connp) ==> (__CPROVER_return_value == HTP_OK &&
     connp->in_state == ((connp->in_tx->response_status_number >= 200 && connp->in_tx->response_status_number <= 299) ? htp_connp_REQ_CONNECT_PROBE_DATA : htp_connp_REQ_FINALIZE)))
 __CPROVER_ensures(RQ_COMMON_POST(connp))
 ;
